@@ -54,8 +54,8 @@ CLAIMED = {
     technique=KANI + "; differential against an independent RFC 4034 4.1.2 bitmap reader; split_rtype additionally by MIR->SMT-LIB2 (z3 + cvc5)",
     ref="DESIGN.md §4 C13"),
  "C01": dict(
-    text="The read-side kernels that CBMC can execute: ParsedName::skip (used by every section hop and record skip) accepts a name exactly when its uncompressed part is at most 255 octets and stops right behind it, for all four-label names up to the limit; the slice label iterator (Label::iter_slice) terminates on every 6-octet input from every start, stays fused after None, and never panics; the message view accepts exactly octet strings of at least 12 octets and every header/flag/count accessor returns the RFC 1035 bit field of the header octets; the compressed-name reader ParsedName::parse_ref agrees with an independent RFC 1035 4.1.4 reader on accept/reject, end position, decompressed length, compressed flag and every label (read back through ParsedName::iter) for every 4-octet message and every 6-octet message with a leading pointer, with each of its three loops ending inside its own bound; in the thorough tier the first question of every 18-octet one-question message equals the referenced name, QTYPE and QCLASS.",
-    note="parse_ref is decided with per-loop unwinding bounds (--unwindset, resolved against the linked GOTO binary on every run; DESIGN section 2a) under the assumption that the reference reader needs at most 2-3 labels and 1-3 pointer hops; label-bearing pointer cycles (which the reader ends through the 255-octet limit after up to 127 rounds) are outside. Typed EDNS option parsing was tried and runs out of memory (experimental tier, not registered). Record-section iteration, canonical_name, is_answer, display and the XFR interpreter need several parse_ref calls per input and are outside the claim, so two of the three known counterexamples of this property (ANCOUNT overflow in canonical_name, non-XFR question in the XFR interpreter; both repaired and demonstrated natively under findings/) are not decided here. Typed RDATA parsing is covered under C05.",
+    text="The read-side kernels that CBMC can execute: ParsedName::skip (used by every section hop and record skip) accepts a name exactly when its uncompressed part is at most 255 octets and stops right behind it, for all four-label names up to the limit; the slice label iterator (Label::iter_slice) terminates on every 6-octet input from every start, stays fused after None, and never panics; the message view accepts exactly octet strings of at least 12 octets and every header/flag/count accessor returns the RFC 1035 bit field of the header octets; the compressed-name reader ParsedName::parse_ref agrees with an independent RFC 1035 4.1.4 reader on accept/reject, end position, decompressed length, compressed flag and every label (read back through ParsedName::iter) for every 4-octet message and every 6-octet message with a leading pointer, with each of its three loops ending inside its own bound; in the thorough tier the first question of every 18-octet one-question message equals the referenced name, QTYPE and QCLASS, and the answer section of every 33-octet one-question one-record message (owner of at most one short label, possibly compressed) yields exactly one item whose owner length, TYPE, CLASS, TTL, RDLENGTH and typed A data are the referenced octets, an error exactly when the record is malformed or cut short, and nothing afterwards.",
+    note="parse_ref is decided with per-loop unwinding bounds (--unwindset, resolved against the linked GOTO binary on every run; DESIGN section 2a) under the assumption that the reference reader needs at most 2-3 labels and 1-3 pointer hops; label-bearing pointer cycles (which the reader ends through the 255-octet limit after up to 127 rounds) are outside. Typed EDNS option parsing was tried and runs out of memory (experimental tier, not registered). Record sections with more than one record, the authority/additional sections, canonical_name, is_answer, display and the XFR interpreter need several parse_ref calls per input and are outside the claim, so two of the three known counterexamples of this property (ANCOUNT overflow in canonical_name, non-XFR question in the XFR interpreter; both repaired and demonstrated natively under findings/) are not decided here. Typed RDATA parsing is covered under C05.",
     technique=KANI + "; termination via unwinding assertions with a pigeonhole bound, non-termination counterexamples replayed natively from the CBMC trace; per-loop bounds via CBMC --unwindset; differential against an independent RFC 1035 4.1.4 name reader",
     ref="DESIGN.md §4 C01"),
  "C09": dict(
@@ -78,7 +78,7 @@ NA = {
  "C14": "chain-of-trust validation is async + moka + ring signatures; the pure denial-range helpers were tried: nsec3_in_range is decided, but nsec_in_range (Name<Bytes>) and nsec3_label_to_hash (Vec growth + from_utf8) run out of memory, which leaves a single harness - too little to claim the property; the hostile-label panic found while trying (D10) was repaired and is demonstrated natively",
  "C16": "every clause is about async tokio tasks, sockets, pipelining and three middleware layers; the only integer kernel (EDNS size clamp) is inline in an async fn; Kani does not model concurrency",
  "C19": "differential claim between the new codec and the established one: the established parser ParsedName::parse_ref is decided on its own since round 4 (DESIGN section 2a); the new-API reader was tried against two independent reference readers (harness/attic/c19.rs.txt) but CBMC runs out of memory on NameBuf's 255-octet buffer even for 4 symbolic octets; a genuine disagreement between the codecs found on the way (D11, pointer into the own label run) is demonstrated natively in findings/D11",
- "C20": "every cache kernel (validity, decrement_ttl, remove_dnssec, classify_no_error) takes a Message and walks all its records (several ParsedName::parse_ref calls per input, each 80-360 s under per-loop bounds, DESIGN section 2a, walking a question plus one record was not attempted within this session's budget); storage is moka and time is tokio's clock",
+ "C20": "every cache kernel (validity, decrement_ttl, remove_dnssec, classify_no_error) takes a Message and walks all its records (several ParsedName::parse_ref calls per input, each 80-360 s under per-loop bounds, DESIGN section 2a, a one-question one-record walk alone takes 420 s and 7 GB under tight assumptions on the owner name, the cache kernels walk all sections and re-compose the message); storage is moka and time is tokio's clock",
 }
 PENDING = "check not built yet (work in progress in this session; see DESIGN.md §4 for the planned harnesses)"
 
